@@ -99,6 +99,9 @@ class Recon:
         if isinstance(node, ast.Constant):
             return S.C(node.value)
         if isinstance(node, ast.Name):
+            comp = self._comprehension_var(ctx, node, at, binds, after, depth)
+            if comp is not None:
+                return comp
             return self._name(ctx, node.id, at, binds, after, depth)
         if isinstance(node, ast.NamedExpr):
             return rec(node.value)
@@ -176,6 +179,26 @@ class Recon:
         if isinstance(node, ast.Lambda):
             return S.unk("lambda")
         return S.unk(type(node).__name__)
+
+    def _comprehension_var(self, ctx, node: ast.Name, at, binds, after, depth):
+        """A name bound by an enclosing comprehension: an element of the iterated expression."""
+        cur = parent(node)
+        child = node
+        while cur is not None and cur is not ctx.func:
+            if isinstance(cur, (ast.ListComp, ast.SetComp, ast.GeneratorExp, ast.DictComp)):
+                for gen in cur.generators:
+                    if child is gen.iter or any(child is x for x in ast.walk(gen.iter)):
+                        continue
+                    names = []
+                    tg = gen.target
+                    elts = tg.elts if isinstance(tg, (ast.Tuple, ast.List)) else [tg]
+                    for i, e in enumerate(elts):
+                        if isinstance(e, ast.Name) and e.id == node.id:
+                            it = self._e(ctx, gen.iter, at, binds, after, depth + 1)
+                            return ("iter", it, i if isinstance(tg, (ast.Tuple, ast.List)) else None)
+            child = cur
+            cur = parent(cur)
+        return None
 
     # -- names ------------------------------------------------------------------------
     def _name(self, ctx: FuncCtx, name: str, at: Node | None, binds, after, depth):
